@@ -203,8 +203,9 @@ def renumber_after_mutation(ctx, rule, floor=2):
         for (bi, t, rk, m) in U.receiver_events(ctx, b):
             pth = U.field_path(rk)
             if pth and pth[0] == "arg" and pth[1] == 1 and pth[2] == ["words"] and m in (
-                    "retain", "remove", "insert", "push", "sort", "sort_by", "reverse", "swap", "drain", "truncate",
-                    "dedup", "swap_remove", "extend", "pop", "clear", "append", "sort_unstable_by", "rotate_left"):
+                    "retain", "remove", "insert", "push", "sort", "sort_by", "reverse", "swap", "drain",
+                    "dedup", "swap_remove", "extend", "append", "sort_unstable_by", "rotate_left"):
+                # (truncate / pop / clear drop a tail: the remaining words keep consecutive numbers)
                 muts.append((bi, m))
         if not muts:
             continue
